@@ -173,7 +173,7 @@ ALLOWED_AXIOMS = {
     "ProofIrrelevance.proof_irrelevance",
 }
 # primitives of the kernel (not axioms of mine): native floats / ints
-PRIMITIVE_RE = re.compile(r"^(PrimFloat|Uint63|PrimInt63|FloatAxioms|FloatOps|Sint63|PrimString)\.")
+PRIMITIVE_RE = re.compile(r"^((PrimFloat|Uint63|PrimInt63|FloatAxioms|FloatOps|Sint63|PrimString)\.|float$|of_uint63$|normfr_mantissa$|frshiftexp$)")
 
 
 def strip_comments(text):
@@ -248,9 +248,14 @@ def check_props_file(prop_id, timeout=600):
         if p.returncode != 0:
             return False, theorems, {}, log[-3000:]
         logs.append(log[-600:])
-        for line in p.stdout.splitlines():
+        lines_ = p.stdout.splitlines()
+        for li, line in enumerate(lines_):
             m = re.match(r"^([A-Za-z_][A-Za-z0-9_.']*)\s*:", line)
-            if m and "." in m.group(1):
+            if not m:   # a long name: the type starts on the next line ("Name\n  : type")
+                m2 = re.match(r"^([A-Za-z_][A-Za-z0-9_.']*)\s*$", line)
+                if m2 and li + 1 < len(lines_) and re.match(r"^\s+:", lines_[li + 1]):
+                    m = m2
+            if m and ("." in m.group(1) or m.group(1) in ("float", "of_uint63", "normfr_mantissa", "frshiftexp")):
                 axioms.add(m.group(1))
     bad = sorted(a for a in axioms if a not in ALLOWED_AXIOMS and not PRIMITIVE_RE.match(a))
     return (ok and not bad), theorems, {"axioms": sorted(axioms), "not_allowed": bad}, "\n".join(logs)[-2000:]
